@@ -965,6 +965,14 @@ class MatlabWrapper(CheckMixin, FormatMixin):
                 check_statement = self._wrap_method_check_statement(
                     static_overload.args)
 
+                # Determine format of return and varargout statements
+                return_type_formatted = self._format_return_type(
+                    static_overload.return_type,
+                    include_namespace=True,
+                    separator=".")
+                varargout = self._format_varargout(
+                    static_overload.return_type, return_type_formatted)
+
                 end_statement = '' \
                     if check_statement == '' \
                     else textwrap.indent(textwrap.dedent("""
@@ -974,9 +982,10 @@ class MatlabWrapper(CheckMixin, FormatMixin):
                 method_text += textwrap.indent(textwrap.dedent('''\
                       % {name_caps} usage: {name_upper_case}({args}) : returns {return_type}
                       % Doxygen can be found at https://gtsam.org/doxygen/
-                      {check_statement}{spacing}varargout{{1}} = {wrapper}({id}, varargin{{:}});{end_statement}
+                      {check_statement}{spacing}{varargout}{wrapper}({id}, varargin{{:}});{end_statement}
                       ''').format(
                     name=''.join(format_name),
+                    varargout=varargout,
                     name_caps=static_overload.name.upper(),
                     name_upper_case=static_overload.name,
                     args=self._wrap_args(static_overload.args),
